@@ -13,7 +13,7 @@ Meta = Opaque("Meta")
 KeyList = ListOfSet(Str)
 
 classdef("liquer.store.Store", abstract=True,
-         fields=dict(dirs=Set(Str), data=Map(Str, Bytes), meta=Map(Str, Meta)))
+         fields=dict(dirs=Set(Str), data=Map(Str, Bytes), meta=Map(Str, Meta), parent_store=Opt(Ref("Store"))))
 
 
 # ------------------------------------------------------------------ ghost view functions
